@@ -113,7 +113,14 @@ class Runner(hist.HistoryRunner):
         m, disk = self.m, self.disk
         t, other, par = m.targets[:3]
         if not os.path.isdir(os.path.join(disk.root, ".redo")):
-            cwd = ""
+            # the first command decides where .redo lives: the common ancestor of the working directory and the
+            # targets' directories.  From a sub-directory that is the project root only if a target in the root is
+            # named by an ABSOLUTE path (relative spellings such as ../t are not cleaned first)
+            if cwd and posixpath.dirname(t) == "" and any(STYLES[s] == "abs" for s in styles):
+                self.out.events["c15:first-command-from-a-subdirectory-naming-a-root-target-absolutely"] += 1
+                self._first_from_sub = True
+            else:
+                cwd = ""
         sps = [spell(t, cwd, s, disk.root) for s in styles]
         names = [t] * len(sps)
         if extra == 1:
@@ -135,6 +142,9 @@ class Runner(hist.HistoryRunner):
         if cwd:
             ev["c15:cwd-not-root"] += 1
         try:
+            if getattr(self, "_first_from_sub", False):
+                self._first_from_sub = False
+                self._allow_first_cwd = True
             self.do_cmd(kind, hist.M._dedup(names), cwd)
         except hist.Violation as v:
             if v.prop == "C09" and distinct >= 2:
@@ -147,6 +157,11 @@ class Runner(hist.HistoryRunner):
     def check_cmd(self, kind, targets, cwd, res, ok, ex, calls, args, exits, pre, nested, ctx):
         hist.HistoryRunner.check_cmd(self, kind, targets, cwd, res, ok, ex, calls, args, exits, pre, nested, ctx)
         # exactly one database record per file, under its canonical project-relative name
+        strays = [os.path.relpath(os.path.join(dp, ".redo"), self.disk.root) for dp, dns, _ in os.walk(self.disk.root)
+                  if ".redo" in dns and dp != self.disk.root]
+        if strays or not os.path.exists(os.path.join(self.disk.root, ".redo", "db.sqlite3")):
+            self.violate("C15", "db-records", dict(ctx, state_directories_elsewhere=strays),
+                         {"symptom": "db-location"})
         files, deps = hist.db_rows(self.disk)
         names = [r[1] for r in files]
         bad = [n for n in names if n != "//ALWAYS" and (posixpath.normpath(n) != n or n.startswith("ln1/")
